@@ -8,7 +8,7 @@ import Cellml.Tie.Prelude
     left behind. The generated definitions are ordinary `do` blocks in this monad; the leaves that read or write a
     field are the `rd` / `upd` / `run` primitives below (the pattern tables wrap them).  Core Lean only. -/
 
-namespace Cellml.Tie
+namespace Cellml.Tie.PCmeta
 
 /-- a python method body over the mutable state `σ`: value or exception class, and the state left behind either way -/
 def PyM (σ α : Type) : Type := σ → Except PyErr α × σ
@@ -101,4 +101,4 @@ instance : Add String := ⟨String.append⟩
 
 end Py
 
-end Cellml.Tie
+end Cellml.Tie.PCmeta
